@@ -53,7 +53,8 @@ var postEndpoints = map[string][]string{ // endpoint -> fields (s: string, n: nu
 
 func validBody(path string) map[string]string {
 	u := ref.B32Encode(restKey)
-	m := map[string]string{"secret": `"` + u + `"`, "code": `"123456"`, "timestamp": "59", "counter": "1", "digits": `"6"`, "period": "30", "skew": "1", "algorithm": `"SHA1"`,
+	// optional fields carry NON-default values, so that anything a rejected request leaves behind shows in a later minimal probe
+	m := map[string]string{"secret": `"` + u + `"`, "code": `"123456"`, "timestamp": "1111111109", "counter": "5", "digits": `"8"`, "period": "7", "skew": "10", "algorithm": `"SHA512"`,
 		"raw_suite": `"OCRA-1:HOTP-SHA1-6:QN08"`, "input": `{"challenge_hex":"3132333435363738"}`, "type": `"totp"`, "issuer": `"Iss"`, "account_name": `"acc"`}
 	out := map[string]string{}
 	for _, f := range postEndpoints[path] {
@@ -199,6 +200,16 @@ func probes() []rreq {
 		{Method: "GET", Path: "/ocra/suites"},
 		{Method: "POST", Path: "/totp/generate", Fields: map[string]any{"secret": u, "timestamp": 1111111109, "digits": "10", "algorithm": "SHA256", "period": 60}},
 		{Method: "POST", Path: "/hotp/validate", Fields: map[string]any{"secret": u, "counter": 7, "code": ref.HOTP(restKey, 9, 6, 0), "skew": 1}},
+		// minimal probes: every optional field omitted, the answer differs between the documented default and a left-over value
+		{Method: "POST", Path: "/hotp/validate", Fields: map[string]any{"secret": u, "code": ref.HOTP(restKey, 7, 6, 0), "counter": 5}},
+		{Method: "POST", Path: "/hotp/validate", Fields: map[string]any{"secret": u, "code": ref.HOTP(restKey, 5, 6, 0), "counter": 5}},
+		{Method: "POST", Path: "/hotp/validate", Fields: map[string]any{"secret": u, "code": ref.HOTP(restKey, 0, 6, 0)}},
+		{Method: "POST", Path: "/totp/validate", Fields: map[string]any{"secret": u, "code": ref.HOTP(restKey, ref.Step(1111111109, 30)+1, 6, 0), "timestamp": 1111111109}},
+		{Method: "POST", Path: "/totp/validate", Fields: map[string]any{"secret": u, "code": ref.HOTP(restKey, ref.Step(1111111109, 30), 6, 0), "timestamp": 1111111109}},
+		{Method: "POST", Path: "/hotp/generate", Fields: map[string]any{"secret": u}},
+		{Method: "POST", Path: "/totp/generate", Fields: map[string]any{"secret": u, "timestamp": 59}},
+		{Method: "POST", Path: "/otp/url", Fields: map[string]any{"type": "totp", "secret": "JBSWY3DPEHPK3PXP", "issuer": "I", "account_name": "a"}},
+		{Method: "POST", Path: "/ocra/generate", Fields: map[string]any{"secret": u, "suite": structuredSuite(sh), "input": ocraInputFor(sh, 1)}},
 	}
 }
 
@@ -319,9 +330,14 @@ func c19(r *ev.Run) {
 		r.DistinctS(obs)
 	}
 	// depth 1: every fault, every probe position, fresh and reused ctx
+	np := len(probes())
 	for i, f := range fl {
-		run(c19Case{[]fault{f}, []int{i}, i%2 == 0})
-		run(c19Case{[]fault{f}, []int{i + 3}, i%2 == 1})
+		for pi := 0; pi < np; pi++ {
+			if len(f.Req.body()) > 100000 && pi%5 != i%5 {
+				continue // the few huge bodies meet a rotating fifth of the probes
+			}
+			run(c19Case{[]fault{f}, []int{pi}, (i+pi)%2 == 0})
+		}
 		if r.Violations() > 30 {
 			break
 		}
